@@ -401,6 +401,7 @@ type T81EncodeOpts struct {
 	Tables    [4]*HuffSpec  // tables by destination (nil → not emitted)
 	Extra     bool          // APP1 + COM before SOF3
 	DHTAfter  bool          // DHT after SOF3 (else before)
+	OneDHT    bool          // all tables in one DHT segment (B.2.4.2 allows several tables per segment), else one segment each
 	CompIDs   []int         // optional component identifiers
 }
 
@@ -471,6 +472,7 @@ func T81Encode(samples [][]int, w, h, p int, o T81EncodeOpts) ([]byte, error) {
 	}
 	sort.Ints(tds)
 	codes := map[int]map[byte]huffCode{}
+	var dhtAll []byte
 	for _, t := range tds {
 		hs := o.Tables[t]
 		if hs == nil {
@@ -484,12 +486,19 @@ func T81Encode(samples [][]int, w, h, p int, o T81EncodeOpts) ([]byte, error) {
 			d = append(d, byte(hs.Bits[i]))
 		}
 		d = append(d, hs.Vals...)
-		dht = append(dht, seg(0xC4, d)...)
+		if o.OneDHT {
+			dhtAll = append(dhtAll, d...)
+		} else {
+			dht = append(dht, seg(0xC4, d)...)
+		}
 		cm, err := hs.codes()
 		if err != nil {
 			return nil, err
 		}
 		codes[t] = cm
+	}
+	if o.OneDHT && len(dhtAll) > 0 {
+		dht = seg(0xC4, dhtAll)
 	}
 	if o.DHTAfter {
 		out = append(out, seg(0xC3, sof)...)
